@@ -6,6 +6,7 @@ package interp
 
 import (
 	"bytes"
+	"sync"
 	"fmt"
 	"go/constant"
 	"go/token"
@@ -168,8 +169,51 @@ func asUnsigned(x value) (value, bool) {
 	panic(fmt.Sprintf("cannot convert %T to unsigned", x))
 }
 
+var zeroCache sync.Map // types.Type -> template value
+
+func copyZero(v value) value {
+	switch x := v.(type) {
+	case structure:
+		n := make(structure, len(x))
+		for i, e := range x {
+			switch e.(type) {
+			case structure, array:
+				n[i] = copyZero(e)
+			default:
+				n[i] = e
+			}
+		}
+		return n
+	case array:
+		n := make(array, len(x))
+		for i, e := range x {
+			switch e.(type) {
+			case structure, array:
+				n[i] = copyZero(e)
+			default:
+				n[i] = e
+			}
+		}
+		return n
+	}
+	return v
+}
+
 // zero returns a new "zero" value of the specified type.
 func zero(t types.Type) value {
+	switch t.(type) {
+	case *types.Named, *types.Struct, *types.Array:
+		if tmpl, ok := zeroCache.Load(t); ok {
+			return copyZero(tmpl)
+		}
+		v := zero0(t)
+		zeroCache.Store(t, v)
+		return copyZero(v)
+	}
+	return zero0(t)
+}
+
+func zero0(t types.Type) value {
 	switch t := t.(type) {
 	case *types.Basic:
 		if t.Kind() == types.UntypedNil {
@@ -1014,28 +1058,49 @@ func unop(fr *frame, instr *ssa.UnOp, x value) value {
 // typeAssert checks whether dynamic type of itf is instr.AssertedType.
 // It returns the extracted value on success, and panics on failure,
 // unless instr.CommaOk, in which case it always returns a "value,ok" tuple.
+type taKey struct{ src, dst types.Type }
+
 func typeAssert(i *interpreter, instr *ssa.TypeAssert, itf iface) value {
 	var v value
 	err := ""
 	if itf.t == nil {
-		err = fmt.Sprintf("interface conversion: interface is nil, not %s", instr.AssertedType)
-
-	} else if idst, ok := instr.AssertedType.Underlying().(*types.Interface); ok {
-		v = itf
-		err = checkInterface(i, idst, itf)
-
-	} else if types.Identical(itf.t, instr.AssertedType) {
-		v = itf.v // extract value
-
+		err = "interface conversion: interface is nil, not " + instr.AssertedType.String()
 	} else {
-		err = fmt.Sprintf("interface conversion: interface is %s, not %s", itf.t, instr.AssertedType)
+		k := taKey{itf.t, instr.AssertedType}
+		res, cached := i.tacache[k]
+		if !cached {
+			if idst, ok := instr.AssertedType.Underlying().(*types.Interface); ok {
+				if checkInterface(i, idst, itf) == "" {
+					res = 1
+				} else {
+					res = 3
+				}
+			} else if types.Identical(itf.t, instr.AssertedType) {
+				res = 2
+			} else {
+				res = 3
+			}
+			i.tacache[k] = res
+		}
+		switch res {
+		case 1:
+			v = itf
+		case 2:
+			v = itf.v // extract value
+		default:
+			if instr.CommaOk {
+				err = "failed"
+			} else {
+				err = fmt.Sprintf("interface conversion: interface is %s, not %s", itf.t, instr.AssertedType)
+			}
+		}
 	}
 	// Note: if instr.Underlying==true ever becomes reachable from interp check that
 	// types.Identical(itf.t.Underlying(), instr.AssertedType)
 
 	if err != "" {
 		if !instr.CommaOk {
-			panic(err)
+			panic(runtimePanic{err})
 		}
 		return tuple{zero(instr.AssertedType), false}
 	}
